@@ -49,6 +49,7 @@ type Scenario struct {
 	FiltersOff bool       `json:"filters_off,omitempty"`
 	CancelAtUs int64      `json:"cancel_at_us,omitempty"` // cancel the context this long after start (icmp, sack)
 	HandshakeMs int       `json:"handshake_ms,omitempty"`
+	WriteLagUs  int64     `json:"write_lag_us,omitempty"` // virtual duration of each WriteTo call
 }
 
 func (sc *Scenario) IsV6() bool     { return strings.HasSuffix(sc.Variant, "6") }
@@ -183,6 +184,7 @@ func RunScenario(t *testing.T, sc *Scenario) *Outcome {
 			w.Faults = sc.Faults
 			w.FiltersOff = sc.FiltersOff
 			w.MaxVirtual = 3*scenarioBound(sc) + 10*time.Second
+			w.WriteLag = us(sc.WriteLagUs)
 			out.Wire = w
 			packets.SetVerifHooks(w.Hooks())
 			defer packets.SetVerifHooks(nil)
@@ -227,6 +229,10 @@ func RunScenario(t *testing.T, sc *Scenario) *Outcome {
 
 // scenarioBound is the termination bound computable from the parameters (C08).
 func scenarioBound(sc *Scenario) time.Duration {
+	return scenarioBoundNoLag(sc) + time.Duration(sc.MaxTTL-sc.MinTTL+2)*us(sc.WriteLagUs)
+}
+
+func scenarioBoundNoLag(sc *Scenario) time.Duration {
 	n := time.Duration(sc.MaxTTL - sc.MinTTL + 1)
 	if n < 1 {
 		n = 1
